@@ -701,16 +701,24 @@ class OperationUpdate:
 class TimestampConverter:
     """Converter for datetime/Unix timestamp conversions."""
 
+    _EPOCH: datetime.datetime = datetime.datetime(1970, 1, 1, tzinfo=datetime.UTC)
+
     @staticmethod
     def to_unix_millis(dt: datetime.datetime | None) -> int | None:
-        """Convert datetime to Unix timestamp in milliseconds."""
-        return int(dt.timestamp() * 1000) if dt else None
+        """Convert datetime to Unix timestamp in milliseconds (truncated to whole milliseconds)."""
+        if dt is None:
+            return None
+        if dt.tzinfo is None:
+            # naive datetimes keep their historic interpretation (local time)
+            return int(dt.timestamp() * 1000)
+        # exact integer arithmetic: float multiplication loses a millisecond for some instants
+        return (dt - TimestampConverter._EPOCH) // datetime.timedelta(milliseconds=1)
 
     @staticmethod
     def from_unix_millis(ms: int | None) -> datetime.datetime | None:
         """Convert Unix timestamp in milliseconds to datetime."""
         return (
-            datetime.datetime.fromtimestamp(ms / 1000, tz=datetime.UTC)
+            TimestampConverter._EPOCH + datetime.timedelta(milliseconds=ms)
             if ms is not None
             else None
         )
@@ -871,22 +879,22 @@ class Operation:
         result = self.to_dict()
 
         # Convert datetime objects to millisecond timestamps
-        if ts := result.get("StartTimestamp"):
+        if (ts := result.get("StartTimestamp")) is not None:
             result["StartTimestamp"] = TimestampConverter.to_unix_millis(ts)
 
-        if ts := result.get("EndTimestamp"):
+        if (ts := result.get("EndTimestamp")) is not None:
             result["EndTimestamp"] = TimestampConverter.to_unix_millis(ts)
 
         if (step_details := result.get("StepDetails")) and (
             ts := step_details.get("NextAttemptTimestamp")
-        ):
+        ) is not None:
             result["StepDetails"]["NextAttemptTimestamp"] = (
                 TimestampConverter.to_unix_millis(ts)
             )
 
         if (wait_details := result.get("WaitDetails")) and (
             ts := wait_details.get("ScheduledEndTimestamp")
-        ):
+        ) is not None:
             result["WaitDetails"]["ScheduledEndTimestamp"] = (
                 TimestampConverter.to_unix_millis(ts)
             )
@@ -909,22 +917,22 @@ class Operation:
         data_copy = copy.deepcopy(data)
 
         # Convert millisecond timestamps back to datetime objects
-        if ms := data_copy.get("StartTimestamp"):
+        if (ms := data_copy.get("StartTimestamp")) is not None:
             data_copy["StartTimestamp"] = TimestampConverter.from_unix_millis(ms)
 
-        if ms := data_copy.get("EndTimestamp"):
+        if (ms := data_copy.get("EndTimestamp")) is not None:
             data_copy["EndTimestamp"] = TimestampConverter.from_unix_millis(ms)
 
         if (step_details := data_copy.get("StepDetails")) and (
             ms := step_details.get("NextAttemptTimestamp")
-        ):
+        ) is not None:
             step_details["NextAttemptTimestamp"] = TimestampConverter.from_unix_millis(
                 ms
             )
 
         if (wait_details := data_copy.get("WaitDetails")) and (
             ms := wait_details.get("ScheduledEndTimestamp")
-        ):
+        ) is not None:
             wait_details["ScheduledEndTimestamp"] = TimestampConverter.from_unix_millis(
                 ms
             )
